@@ -571,6 +571,23 @@ func Discharge(obs []*Oblig, outDir string, tsec int, thorough bool) {
 			_ = os.WriteFile(fn, []byte(text), 0o644)
 			ob.File = fn
 			r := Solve(fn, tsec, thorough)
+			if r.Status != "unsat" && r.Status != "sat" && ob.Variants != nil {
+				// hypothesis relaxation: forall-exists hypotheses can send the
+				// instantiation engines into matching loops; a proof from fewer
+				// hypotheses is still a proof.
+				for vi, vt := range ob.Variants() {
+					vf := filepath.Join(outDir, fmt.Sprintf("ob%04d.v%d.smt2", i, vi))
+					_ = os.WriteFile(vf, []byte(vt), 0o644)
+					vr := Solve(vf, 4, false)
+					r.All = append(r.All, fmt.Sprintf("variant%d[%s]", vi, strings.Join(vr.All, ",")))
+					if vr.Status == "unsat" {
+						vr.All = r.All
+						vr.Solver += "+relaxed"
+						r = vr
+						break
+					}
+				}
+			}
 			ob.Res = r
 			mu.Lock()
 			cache[key(text)] = &r
